@@ -162,7 +162,7 @@ pub fn run(args: &Args) -> i32 {
     let tier = args.tier;
     let mut rep = Report::new("C17", tier, "model_checking");
     let start = Instant::now();
-    let budget_s = if tier == Tier::Thorough { 30.0 * 60.0 } else { 45.0 };
+    let budget_s = if tier == Tier::Thorough { 30.0 * 60.0 } else { 60.0 };
     let mut findings = Findings::new();
     let (mut states, mut transitions, mut max_depth) = (0u64, 0u64, 0usize);
     let mut phases: Vec<Value> = vec![];
@@ -175,6 +175,9 @@ pub fn run(args: &Args) -> i32 {
         ("all-columns", WorldCfg { extra_args: vec!["--tui-custom-columns".into(), "holsravbwdtjgxiSPQTCNfFBDKM".into()], ..base.clone() }),
         ("one-column", WorldCfg { extra_args: vec!["--tui-custom-columns".into(), "h".into()], ..base.clone() }),
         ("tiny-terminal", WorldCfg { size: (1, 1), ..base.clone() }),
+        // the settings dialog's table has no inner area: nothing the widgets would repair while
+        // drawing (a selection beyond the last row, say) is repaired here
+        ("short-terminal", WorldCfg { size: (80, 15), ..base.clone() }),
     ];
     let mut reached_for_sizes: Vec<(WorldCfg, Vec<Ev>)> = vec![];
     // (i) full alphabet, level by level
@@ -290,12 +293,16 @@ pub fn run(args: &Args) -> i32 {
         let nav: Vec<Ev> = ["next_hop", "previous_hop", "next_trace", "previous_trace"].iter().map(|k| Ev::Key(k)).collect();
         let keys = ["next_hop", "previous_hop", "next_trace", "previous_trace", "toggle_chart", "next_hop_address", "previous_hop_address", "toggle_settings", "toggle_settings_columns"];
         let al: Vec<Ev> = keys.iter().map(|k| Ev::Key(k)).collect();
-        for (ci, (name, cfg)) in [&configs[0], &configs[3], &configs[4]].into_iter().enumerate().take(if tier == Tier::Thorough { 3 } else { 2 }) {
+        // terminal size is a dimension of the search, not only of the final re-draw: at 80x15 and
+        // 1x1 the dialog is (partly) not drawn, so the state is never touched by a widget
+        let deep: Vec<&(&str, WorldCfg)> = if tier == Tier::Thorough { vec![&configs[0], &configs[3], &configs[4], &configs[6], &configs[5]] } else { vec![&configs[0], &configs[3], &configs[6], &configs[5]] };
+        for (ci, (name, cfg)) in deep.into_iter().enumerate() {
             let k = match (tier, ci) {
                 (Tier::Thorough, _) => 3,
                 (Tier::Quick, 0) => 2,
                 (Tier::Quick, _) => 1,
             };
+            let t0 = Instant::now();
             let root = vec![Ev::Trace(TraceEv::Path3, 0), Ev::Key("toggle_settings")];
             let fix = explore::bfs(cfg, &nav, &root, 120, usize::MAX, no_check);
             let r = explore::bfs_roots(cfg, &al, &fix.reached, k, usize::MAX, &|_| 0, usize::MAX, no_check);
@@ -305,6 +312,7 @@ pub fn run(args: &Args) -> i32 {
             for (h, f) in fix.fails.iter().chain(&r.fails) {
                 record(&mut findings, "C17", cfg, h, f, None);
             }
+            eprintln!("C17 progress: settings-deep/{name} took {:.1}s ({} + {} states)", t0.elapsed().as_secs_f64(), fix.states, r.states);
             phases.push(json!({"phase": "settings-deep", "config": name, "navigation_states": fix.states, "navigation_fixpoint": fix.fixpoint, "navigation_depth": fix.max_depth, "alphabet": al.len(), "events_from_every_navigation_state": k, "states": r.states, "transitions": r.transitions, "failures": fix.fails.len() + r.fails.len()}));
         }
     }
